@@ -1,103 +1,21 @@
-"""Per-property configuration of the checks (data only)."""
+"""Per-property configuration of the checks: one file props.d/Cxx.py per claimed property (data only)."""
+import glob
+import importlib.util
+import os
 
-# Axioms that may appear under Print Assumptions (standard-library axioms only;
-# every one that actually appears is listed in the evidence of the run).
-AXIOM_ALLOWLIST = {
-    "functional_extensionality_dep",
-    "FunctionalExtensionality.functional_extensionality_dep",
-    "Eqdep.Eq_rect_eq.eq_rect_eq",
-    "Eq_rect_eq.eq_rect_eq",
-    "JMeq_eq",
-    "JMeq.JMeq_eq",
-    "proof_irrelevance",
-    "ProofIrrelevance.proof_irrelevance",
-    "Classical_Prop.classic",
-    "classic",
-}
+from propbase import AXIOM_ALLOWLIST, KERNEL, HARNESS  # noqa: F401
 
-KERNEL = "Coq 8.16.1 kernel incl. vm_compute (no native_compute); full .vo build, coqchk in the thorough tier"
-HARNESS = "Rust harness (generators, canonical printing of observations) and the case files it writes; differential testing validates the model, it is not the theorem"
+_HERE = os.path.dirname(os.path.abspath(__file__))
 
+# commits in /repo that add the guarded hooks (cargo feature verif-hooks)
 HOOK_COMMITS = ["cf22d3e"]
+# property id -> reason, for properties the technique genuinely cannot decide
 NOT_APPLICABLE = {}
 
-PROPS = {
-    "C14": {
-        "gen": ["base64"],
-        "coq_props": ["theories/Props/C14.vo"],
-        "coq_corr": ["theories/Corr/C14Corr.vo"],
-        "props_file": "theories/Props/C14.v",
-        "props_module": "Props.C14",
-        "corr_check": "SNT.Corr.C14Corr.c14_check (model Encoder/Base64.v vs surf_n_term::{encoder::Base64Encoder, decoder::Base64Decoder})",
-        "level_text": "Coq theorems over an executable model of Base64Encoder/Base64Decoder: encoder output = RFC 4648 text for every input and write partition; decoder returns the original bytes for every read schedule and every sequence of destination sizes; non-multiple-of-4 text is an error; no panic / termination for arbitrary bytes. Tables are regenerated from the source each run and the table lemmas re-checked; the model is tied to the code by a differential run.",
-        "level_note": "Trusted: Coq kernel + vm_compute; translate/tables.py; hand-written model validated by the correspondence run; reader contract (0 only at EOF); io errors outside the model. No axioms (Print Assumptions: closed).",
-        "technique": "Coq proof (induction, refinement to a pure group decoder, finite sweeps for bit operations) + regenerated tables + model/implementation correspondence",
-        "design_ref": "DESIGN.md 6.14",
-        "n_quick": 2000,
-        "n_thorough": 40000,
-        "shard": 125,
-        "level": "proof",
-        "trusted_base": [
-            KERNEL,
-            "translate/tables.py: BASE64_ENCODE, BASE64_DECODE and the decoder buffer length are re-extracted from src/encoder.rs, src/decoder.rs on every run (Gen/TabBase64.v)",
-            "hand-written model Encoder/Base64.v of Base64Encoder::{write,finish} and Base64Decoder::{buffer_fill,read}, tied to the code by the correspondence run",
-            HARNESS,
-        ],
-        "assumptions": [
-            "the inner reader signals end of input only by returning 0 and otherwise returns between 1 and the requested number of bytes; io errors of the inner reader/writer are outside the model",
-            "callers drain the decoder until a read returns 0 or an error",
-        ],
-    },
-    "C08": {
-        "gen": [],
-        "coq_props": ["theories/Props/C08.vo"],
-        "coq_corr": ["theories/Corr/C08Corr.vo"],
-        "props_file": "theories/Props/C08.v",
-        "props_module": "Props.C08",
-        "corr_check": "SNT.Corr.C08Corr.c08_check (model Surface/Bounds.v vs surf_n_term::surface::ViewBounds for 10 integer types x 7 selector forms)",
-        "level_text": "Coq theorem: for every axis length up to i64::MAX, every selector form, every integer type and every bound of that type, the model of view_bounds equals Python slice resolution over unbounded integers (hence 0 <= start < end <= n or absent, and type-independent). Model tied to the code by a differential run over all ten types, seven forms and extreme bounds (plus an exhaustive small sweep).",
-        "level_note": "Trusted: Coq kernel; hand-written model of range_bounds/index_i64/casts validated by correspondence; 64-bit target; n <= i64::MAX. No axioms.",
-        "technique": "Coq proof (case analysis + lia against a Python-slice specification over Z) + model/implementation correspondence",
-        "design_ref": "DESIGN.md 6.8",
-        "n_quick": 3000,
-        "n_thorough": 60000,
-        "shard": 1000,
-        "level": "proof",
-        "trusted_base": [
-            KERNEL,
-            "hand-written model Surface/Bounds.v of ViewBounds::view_bounds / range_bounds / index_i64 (casts and saturating arithmetic explicit), tied to the code by the correspondence run over all ten integer types",
-            "specification py_slice written from the Python data model (PySlice_AdjustIndices, step 1) over unbounded Z",
-            HARNESS,
-        ],
-        "assumptions": [
-            "axis lengths are at most i64::MAX (no Rust allocation is longer; zero-sized-type surfaces beyond that are outside the theorem)",
-            "64-bit target: usize = u64, isize = i64",
-        ],
-    },
-    "C07": {
-        "gen": [],
-        "coq_props": ["theories/Props/C07.vo"],
-        "coq_corr": ["theories/Corr/C07Corr.vo"],
-        "props_file": "theories/Props/C07.v",
-        "props_module": "Props.C07",
-        "corr_check": "SNT.Corr.C07Corr.c07_check (model Surface/Shape.v vs surf_n_term::surface::{Shape, Surface, SurfaceMut} through chains of view_owned/transpose over owned and &mut bases)",
-        "level_text": "Coq theorems: for every root size and every finite chain of view/transpose with arbitrary selectors the Shape computed by the code represents the window the same operations cut out of a plain matrix (induction over the chain, using the C08 theorem for selectors); for every represented shape offsets are in bounds and injective (the obligation of the unsafe iter_mut), get/iter/iter_mut/fill_with touch exactly the window's cells, each once, row-major, and fill_with leaves every other element unchanged. insert/map/to_owned are covered by the correspondence only. Model tied to the code by differential runs observing shapes, reads, handed-out addresses and the whole backing vector after each mutation.",
-        "level_note": "Trusted: Coq kernel; hand-written model Surface/Shape.v validated by correspondence; the memory model of rustc is not modelled (the unsafe block is covered through the arithmetic obligation: distinct in-bounds offsets). No axioms.",
-        "technique": "Coq proof (representation invariant by induction over the view chain; nia/lia; NoDup of handed-out offsets) + model/implementation correspondence",
-        "design_ref": "DESIGN.md 6.7",
-        "n_quick": 1500,
-        "n_thorough": 30000,
-        "shard": 100,
-        "level": "proof",
-        "trusted_base": [
-            KERNEL,
-            "hand-written model Surface/Shape.v of Shape::{offset,nth,view}, transpose, get, SurfaceIter, SurfaceMutIter, fill/fill_with/clear, insert, map; tied to the code by the correspondence run",
-            "window semantics (win_view/win_transpose/win_coord) as the plain-matrix specification",
-            HARNESS,
-        ],
-        "assumptions": [
-            "root surfaces have height, width <= i64::MAX and a backing vector of at least H*W elements (SurfaceOwned::new/new_with)",
-            "insert, map and to_owned_surf are validated by correspondence against the window semantics, not proved",
-        ],
-    },
-}
+PROPS = {}
+for _path in sorted(glob.glob(os.path.join(_HERE, "props.d", "C*.py"))):
+    _pid = os.path.splitext(os.path.basename(_path))[0]
+    _spec = importlib.util.spec_from_file_location("props_d_" + _pid, _path)
+    _mod = importlib.util.module_from_spec(_spec)
+    _spec.loader.exec_module(_mod)
+    PROPS[_pid] = _mod.PROP
